@@ -182,6 +182,10 @@ pub fn byte_patterns() -> Vec<Pat> {
         b"[\xc0-\xdf][\x80-\xbf]",
         b"\x00+",
         b"(?s:.)",
+        b"\x80+",
+        b"a\x80",
+        b"\x7f\x80\x81",
+        b"(\x80|\xfe)b",
     ] {
         v.push(Pat::bregex(p));
     }
@@ -350,6 +354,42 @@ pub fn family(tier: Tier) -> Vec<Spec> {
                         let pats: Vec<Pat> = base.iter().enumerate().map(|(x, p)| Pat::regex(p).prio(3 + 2 * pr[x])).collect();
                         specs.push(Spec::new(true, pats));
                     }
+                }
+            }
+        }
+    }
+    // five to eight simultaneously matching leaves (more than any fixed small buffer): every
+    // rotation of strict priorities (each position wins once), a literal token in every position
+    // under default priorities, and a tie at the top in every pair of positions
+    let wide = ["a+", "[ab]+", "a[ab]*", "[^b]+", "a|b", "[ab]", "aa?", "ab?", "a{2}[ab]*", "(?i:a)+", "a{1,3}"];
+    let nmax = if tier == Tier::Thorough { 8 } else { 6 };
+    for n in 5..=nmax {
+        for off in 0..=(wide.len() - n).min(if tier == Tier::Thorough { 3 } else { 1 }) {
+            let base = &wide[off..off + n];
+            for r in 0..n {
+                for rev in [false, true] {
+                    let pats: Vec<Pat> = base.iter().enumerate().map(|(x, p)| Pat::regex(p).prio(3 + 2 * if rev { (n - x + r) % n } else { (x + r) % n })).collect();
+                    specs.push(Spec::new(true, pats.clone()));
+                    if r == 0 {
+                        specs.push(Spec::new(false, pats));
+                    }
+                }
+                // a literal token at position r among n - 1 regexes, default priorities
+                for lit in ["aaa", "ab", "a"] {
+                    let mut pats: Vec<Pat> = base.iter().map(|p| Pat::regex(p)).collect();
+                    pats[r] = Pat::token(lit);
+                    specs.push(Spec::new(true, pats.clone()));
+                    // and the same with every regex pushed below the token explicitly
+                    for (x, p) in pats.iter_mut().enumerate() {
+                        if x != r {
+                            p.priority = Some(1);
+                        }
+                    }
+                    specs.push(Spec::new(true, pats));
+                }
+                for r2 in r + 1..n {
+                    let pats: Vec<Pat> = base.iter().enumerate().map(|(x, p)| Pat::regex(p).prio(if x == r || x == r2 { 50 } else { 3 + x })).collect();
+                    specs.push(Spec::new(true, pats));
                 }
             }
         }
